@@ -316,8 +316,7 @@ def run_shard(ctx: Ctx) -> None:
             doc.features.add("path_value_reserved")     # path arguments that need percent-encoding
         run_batch(ctx, [{"doc": doc, "n": ctx.shard * 100000 + b, "trigger": trig}])
     # the exhaustive shape catalogue as REQUEST bodies: every wrapper(wrapper(leaf)) as a required JSON body
-    cat = list(enumerate(shapes.all_shapes(2 if ctx.quick else 3)))
-    chunks = [cat[i:i + 20] for i in range(0, len(cat), 20)]
+    chunks = shapes.chunked(2 if ctx.quick else 3, 20)
     for ci, chunk in enumerate(chunks):
         if ctx.mine(ci):
             sd = shapes.request_document(chunk)
